@@ -4,8 +4,13 @@
 package wal
 
 import (
+	"github.com/coreos/etcd/raft/raftpb"
 	badger "github.com/dgraph-io/badger/v2"
 	uuid "github.com/satori/go.uuid"
 )
 
 func verifIO(db *badger.DB, group uuid.UUID, op string, before bool) error { return nil }
+
+func verifSaveOp(hardState raftpb.HardState, entries []raftpb.Entry, snapshot raftpb.Snapshot) string {
+	return ""
+}
